@@ -13,10 +13,10 @@ import (
 	"golang.org/x/tools/go/ssa"
 )
 
-var intrinsics map[string]Intrinsic
+var intrinsics = map[string]Intrinsic{}
 
 func init() {
-	intrinsics = map[string]Intrinsic{
+	for k, v := range map[string]Intrinsic{
 		"strings.HasPrefix":  inHasPrefix,
 		"strings.HasSuffix":  inHasSuffix,
 		"strings.Contains":   inContains,
@@ -52,6 +52,15 @@ func init() {
 		"(*reflect.rtype).Kind":                inRtypeKind,
 		"(*reflect.rtype).NumMethod":           inRtypeNumMethod,
 		"(*reflect.rtype).Method":              inRtypeMethod,
+		"(*reflect.rtype).Implements": func(m *Machine, fn *ssa.Function, a []Value) Value {
+			t := nativeOf(a[0]).RT
+			ui := a[1].(Iface)
+			it, ok := nativeOf(ui.V).RT.Underlying().(*types.Interface)
+			if !ok {
+				panic(goPanic{msg: "reflect: non-interface type passed to Type.Implements"})
+			}
+			return types.Implements(t, it)
+		},
 		"(*reflect.rtype).Elem": func(m *Machine, fn *ssa.Function, a []Value) Value {
 			t := nativeOf(a[0]).RT
 			switch u := t.Underlying().(type) {
@@ -94,6 +103,8 @@ func init() {
 			return Tuple{s, Iface{}}
 		},
 		"github.com/gontainer/gontainer-helpers/v3/graph.New": inGraphNew,
+	} {
+		intrinsics[k] = v
 	}
 }
 
